@@ -2,120 +2,9 @@
   C13 — lemmas towards `ok (runCase …) = true`: facts about the table's entries, the listener
   model on them, timing of `_on_data`, the announcer's cycle.
 -/
-import Upnp.Lemmas.C13Dispatch
+import Upnp.Lemmas.C13Compose
 import Upnp.Model.C13Run
 namespace Upnp.C13
-
-/-! ### entries of the table -/
-
-structure ExpOk (e : Exp) : Prop where
-  dev : wfUdn e.dev = true
-  usn : e.usn = e.dev ∨ ∃ x, e.usn = e.dev ++ sep ++ x
-  st : e.st ≠ []
-
-theorem ne_nil_of_wfUdn {u : Str} (h : wfUdn u = true) : u ≠ [] := by
-  rintro rfl; revert h; decide
-
-theorem ne_nil_of_parts {s : Str} (h : (typeParts (lower s)).isSome = true) : s ≠ [] := by
-  rintro rfl; revert h; decide
-
-theorem rootDevice_ne_nil : rootDevice ≠ [] := by decide
-
-theorem expAll_ok {t : DevTree} (hw : WF t) : ∀ e ∈ expAll t, ExpOk e := by
-  intro e he
-  simp only [expAll, List.mem_cons, List.mem_append, List.mem_flatMap, List.mem_map,
-    List.not_mem_nil, or_false] at he
-  rcases he with rfl | ⟨d, hd, rfl | rfl⟩ | ⟨s, hs, rfl⟩
-  · exact ⟨hw.root, Or.inr ⟨_, rfl⟩, rootDevice_ne_nil⟩
-  · exact ⟨hw.udn d hd, Or.inl rfl, ne_nil_of_wfUdn (hw.udn d hd)⟩
-  · exact ⟨hw.udn d hd, Or.inr ⟨_, rfl⟩, ne_nil_of_parts (hw.dtype d hd)⟩
-  · obtain ⟨d, hd, ho, _⟩ := mem_allServices.mp hs
-    exact ⟨by simp only [expSvc]; rw [ho]; exact hw.udn d hd, Or.inr ⟨_, rfl⟩, ne_nil_of_parts (hw.stype s hs)⟩
-
-theorem expected_ok {t : DevTree} (hw : WF t) (ar : Bool) (st : Str) : ∀ e ∈ (expected t ar st).1, ExpOk e := by
-  intro e he
-  unfold expected at he
-  simp only [List.mem_append] at he
-  rcases he with he | he
-  · unfold expectedBase at he
-    simp only at he
-    split at he
-    · exact expAll_ok hw e he
-    · split at he
-      · simp only [List.mem_singleton] at he
-        subst he
-        exact ⟨hw.root, Or.inr ⟨_, rfl⟩, rootDevice_ne_nil⟩
-      · simp only [List.mem_append, List.mem_map, List.mem_filter] at he
-        rcases he with (⟨d, ⟨hd, _⟩, rfl⟩ | ⟨d, ⟨hd, hm⟩, rfl⟩) | ⟨s, ⟨hs, hm⟩, rfl⟩
-        · exact ⟨hw.udn d hd, Or.inl rfl, ne_nil_of_wfUdn (hw.udn d hd)⟩
-        · refine ⟨hw.udn d hd, Or.inr ⟨_, rfl⟩, ?_⟩
-          have := typeMatches_ne_nil hm
-          simp only [expDevType]; intro h; apply this; rw [h]; rfl
-        · obtain ⟨d, hd, ho, _⟩ := mem_allServices.mp hs
-          refine ⟨by simp only [expSvc]; rw [ho]; exact hw.udn d hd, Or.inr ⟨_, rfl⟩, ?_⟩
-          have := typeMatches_ne_nil hm
-          simp only [expSvc]; intro h; apply this; rw [h]; rfl
-  · cases ar with
-    | false => simp at he
-    | true =>
-      simp only [if_true, List.mem_singleton] at he
-      subst he
-      exact ⟨hw.root, Or.inr ⟨_, rfl⟩, rootDevice_ne_nil⟩
-
-theorem sep_eq : sep = [':', ':'] := by decide
-
-theorem ExpOk.usn_prefix {e : Exp} (h : ExpOk e) : startsWith e.usn e.dev = true := by
-  rcases h.usn with h | ⟨x, h⟩
-  · rw [h]; exact startsWith_self _
-  · rw [h, List.append_assoc]; exact startsWith_append _ _
-
-/-- **USN → UDN**: the listener's `udn_from_usn` recovers the described device's UDN -/
-theorem ExpOk.udn_of_usn {e : Exp} (h : ExpOk e) : udnFromUsn e.usn = some e.dev := by
-  have hd := h.dev
-  simp only [wfUdn, Bool.and_eq_true] at hd
-  unfold udnFromUsn
-  rcases h.usn with hu | ⟨x, hu⟩
-  · rw [hu, if_pos hd.1, beforeSep2_self _ hd.2]
-  · rw [hu]
-    have : startsWith (lower (e.dev ++ sep ++ x)) "uuid:".toList = true := by
-      rw [List.append_assoc, lower_append]; exact startsWith_trans_append _ hd.1
-    rw [if_pos this, List.append_assoc, sep_eq]
-    simp only [List.cons_append, List.nil_append]
-    rw [beforeSep2_append _ _ hd.2]
-
-theorem hearSearch_ok {e : Exp} (h : ExpOk e) {st loc : Str} (hst : st ≠ []) (hl : validLocation loc = true) :
-    hearSearch st e.usn loc = ⟨true, e.dev, st, loc, 0⟩ := by
-  unfold hearSearch
-  rw [h.udn_of_usn]
-  have h1 : e.dev.isEmpty = false := by
-    cases hh : e.dev with
-    | nil => exact absurd hh (ne_nil_of_wfUdn h.dev)
-    | cons _ _ => rfl
-  have h2 : st.isEmpty = false := by
-    cases st with
-    | nil => exact absurd rfl hst
-    | cons _ _ => rfl
-  simp [h1, h2, hl]
-
-theorem hearAlive_ok {e : Exp} (h : ExpOk e) {loc : Str} (hl : validLocation loc = true) :
-    hearAlive e.st e.usn loc = ⟨true, e.dev, e.st, loc, 1⟩ := by
-  unfold hearAlive
-  rw [h.udn_of_usn]
-  have h1 : e.dev.isEmpty = false := by
-    cases hh : e.dev with
-    | nil => exact absurd hh (ne_nil_of_wfUdn h.dev)
-    | cons _ _ => rfl
-  have h2 : e.st.isEmpty = false := by
-    cases hh : e.st with
-    | nil => exact absurd hh h.st
-    | cons _ _ => rfl
-  simp [h1, h2, hl]
-
-theorem hearByebye_ok {e : Exp} (h : ExpOk e) {loc : Str} (hl : validLocation loc = true) :
-    hearByebye e.st e.usn loc = ⟨true, e.dev, e.st, loc, 2⟩ := by
-  unfold hearByebye
-  rw [hearAlive_ok h hl]
-  rfl
 
 /-! ### timing of `_on_data` -/
 
@@ -282,7 +171,7 @@ theorem okSearch_run {k : Consts} (hk : ConstsOk k) {t : DevTree} (hw : WF t) (c
         true_and, List.isEmpty_nil, and_true]
       refine ⟨⟨decide_eq_true ht1, decide_eq_true ht2⟩, e, he, ⟨hek, ?_⟩, ?_⟩
       · rw [husn]; exact heok.usn_prefix
-      · rw [husn, hearSearch_ok heok hst hl]
+      · rw [hearResponse_ok heok cfg husn hst hl]
         simp [heardOk]
   · simp only [runSearch, Bool.or_eq_true, Bool.not_eq_true']; left; simpa using hr
 
